@@ -110,6 +110,62 @@ func ruleMATRIX(c *Ctx) {
 		if im.token && !(active && needName) {
 			problems = append(problems, "token-level path lacks the NeedObjectName()/isActiveNamespace() conditions")
 		}
+		// the isVerbatim argument: constant, ValueFlags.IsVerbatim(), `m > 0` with m from ConsumeSimpleString, or `safeASCII || !NeedEscape(...)`; single definition
+		if len(ins.Args) == 2 {
+			verb := ast.Unparen(ins.Args[1])
+			okVerb := false
+			var judge func(e ast.Expr, depth int) bool
+			judge = func(e ast.Expr, depth int) bool {
+				e = ast.Unparen(e)
+				if tv, ok := info.Types[e]; ok && tv.Value != nil {
+					return true
+				}
+				switch x := e.(type) {
+				case *ast.CallExpr:
+					if cf := Callee(info, x); cf != nil && cf.Name() == "IsVerbatim" {
+						return true
+					}
+				case *ast.BinaryExpr:
+					if x.Op == token.GTR {
+						if v := IdentObj(info, x.X); v != nil {
+							for _, d := range defsOf(info, f.Body(), v) {
+								if dc, ok := ast.Unparen(d).(*ast.CallExpr); ok && FuncCall(info, dc, "jsonwire", "ConsumeSimpleString") {
+									return true
+								}
+							}
+						}
+					}
+					if x.Op == token.LOR {
+						// safeASCII || !jsonwire.NeedEscape(...)
+						if u, ok := ast.Unparen(x.Y).(*ast.UnaryExpr); ok && u.Op == token.NOT {
+							if nc, ok := ast.Unparen(u.X).(*ast.CallExpr); ok && FuncCall(info, nc, "jsonwire", "NeedEscape") {
+								return true
+							}
+						}
+					}
+				case *ast.Ident:
+					v := IdentObj(info, x)
+					if v == nil || depth > 1 {
+						return false
+					}
+					defs := defsOf(info, f.Body(), v)
+					if len(defs) == 0 {
+						return false
+					}
+					for _, d := range defs {
+						if !judge(d, depth+1) {
+							return false
+						}
+					}
+					return true
+				}
+				return false
+			}
+			okVerb = judge(verb, 0)
+			if !okVerb {
+				problems = append(problems, "the isVerbatim argument `"+exprString(verb)+"` is not derived solely from the scanner's own verdict (ConsumeSimpleString / ValueFlags.IsVerbatim / NeedEscape): a name that still needs unquoting would be compared raw")
+			}
+		}
 		c.Oblige("O2-duplicates:"+im.name, ins.Pos(), len(problems) == 0, strings.Join(problems, "; "))
 	}
 	// O3: UTF-8
